@@ -41,6 +41,7 @@ CHECK_DEADLOCK FALSE
     if not out["ext_ok"]:
         c.notes.append("C++ extension could not be built: ext routes not exercised (" + out["ext_msg"] + ")")
     tc = {"MaxRows": 0, "Trails": "{}", "Codings": "{}"}
+    scen = c.screen(scen, "Trace_Pack", chunk=120, constants=tc)
     res = c.validate("Trace_Pack", scen, chunk=120, constants=tc)
     c.judge(scen, res, describe=lambda tr: {k: tr[0].get(k) for k in ("act", "bits", "rows", "trail", "tshape")})
     c.extra["tlc_cases_replayed"] = len(cases)
